@@ -183,6 +183,38 @@ pub fn check(tape: &[u32]) -> CheckResult {
         }
         labels.push("second-mapper".to_string());
     }
+    // one mapper shared by several threads (it is Sync): every thread must get the single-threaded answers
+    if tape.len() % 8 == 1 && colors.len() >= 2 {
+        let mut qs: Vec<[u8; 4]> = vec![];
+        for k in 0..8usize {
+            let c = colors[(k * 5 + 1) % colors.len()];
+            qs.push([c[0], c[1], c[2], 255]);
+        }
+        qs.push([1, 2, 3, 255]);
+        qs.push([1, 2, 3, 0]);
+        let want: Vec<u8> = qs.iter().map(|q| mapper.lookup(q[0], q[1], q[2], q[3])).collect();
+        let bad = std::sync::Mutex::new(None::<(usize, u8)>);
+        std::thread::scope(|sc| {
+            for th in 0..4usize {
+                let (qs, want, mapper, bad) = (&qs, &want, &mapper, &bad);
+                sc.spawn(move || {
+                    for it in 0..6000usize {
+                        let k = (it * (th * 2 + 1) + th) % qs.len();
+                        let q = qs[k];
+                        let got = mapper.lookup(q[0], q[1], q[2], q[3]);
+                        if got != want[k] {
+                            *bad.lock().unwrap() = Some((k, got));
+                            return;
+                        }
+                    }
+                });
+            }
+        });
+        if let Some((k, got)) = bad.into_inner().unwrap() {
+            return Err(Failure::new("shared-mapper", format!("PaletteMapper shared by 4 threads: lookup({:?}) = {} in one of them, {} single-threaded", qs[k], got, want[k])).with(detail()));
+        }
+        labels.push("shared-by-threads".to_string());
+    }
     // images
     let img = gen_image(&mut t, &colors);
     check_extrude(&img).map_err(|e| e.with(json!({"dims": img.dimensions(), "pixels_prefix": img.as_raw().iter().take(64).collect::<Vec<_>>()})))?;
